@@ -289,5 +289,5 @@ RULES = [
     ("C20.R1", "P1", r1_hot_paths_subscript, "hot paths subscript the table"),
     ("C20.R2", "P1", r2_success_is_reread, "success is a re-read"),
     ("C20.R4", "P1", r4_only_cache_classes_write_cache, "only the cache classes write cache entries"),
-    ("C20.R3", "P2", r3_no_hit_interception, "cache classes do not intercept hits"),
+    ("C20.R3", "P1", r3_no_hit_interception, "cache classes do not intercept hits"),
 ]
